@@ -546,6 +546,9 @@ class SingleWindowSplitter(BaseSplitter):
     def _split(self, y):
         window_length = check_window_length(self.window_length)
         fh = _check_fh(self.fh)
+        # the window (at least one observation if no length is given) and the horizon
+        # must fit into `y`, otherwise windows would be silently truncated
+        _check_window_lengths(y, fh, 1 if window_length is None else window_length, None)
 
         end = _get_end(y, fh) - 1
         start = 0 if window_length is None else end - window_length
